@@ -8,18 +8,18 @@ FS_NOTE = ("trusted: Coq kernel, extraction (ExtrOcamlBasic only) + OCaml driver
 FS_TEXT = ("layer-B Gallina model of the volume manager, line-by-line transcription, tied to the crate by trace-exact differential testing (every device call, result, callback, file state, final image); "
            "theorems proved for all inputs about the mechanisms the property rests on (listed in coq/fs/%s.v, each `_partial` where the end-to-end statement is not closed); the end-to-end statement is decided at run time by the spec oracle on the implementation's outputs. %s")
 FS = {
- "C01": "Proved: cluster addressing is injective and inside the data area. Oracle: byte-array file model replayed on the implementation's results (reads, length/offset/eof after every call).",
- "C02": "Proved: lookup returns the first live slot whose 11 name bytes match. Oracle: independent FAT reader on the final medium vs flushed contents; untouched entries byte-identical; creation time stable.",
- "C03": "Proved: the free-entry scan only returns in-range zero entries; data clusters map inside the data area. Oracle: independent structural checker after every call that wrote.",
- "C04": "Proved: data-cluster writes land inside the data area; no slack FAT entry is ever allocated. Oracle: region classification of every block write against the pre-write medium.",
- "C05": "Proved: the scan finds the FIRST free entry and makes progress. Oracle: used-set == reachable-set when quiescent; fill/delete/refill cycles accept exactly free x cluster bytes.",
+ "C01": "Proved (PrSeek, PrRw): every seek/eof/length/offset op = cursor arithmetic incl. the embedded-io Seek adapter for every argument (never panics); find_data_on_disk under the cursor invariant; mgr_read returns exactly firstn/skipn of the file's byte array (full fuel induction); one write step = set_bytes on the byte array with the block-start guard (regression i) and isolation from every other chain. Not closed: whole write loop / op sequences. Oracle: byte-array file model replayed on the implementation's results.",
+ "C02": "Proved (PrEntry, PrDir): flush writes exactly the serialized in-memory entry into its slot and a fresh lookup returns it (C02_flush_then_lookup); codec round trip; ctime bytes stable iff month/day fields non-zero (refutation otherwise: known finding); create/delete/flush change one slot, every other slot and block byte-identical. Not closed: whole histories, mtime = clock at last write. Oracle: independent FAT reader on the final medium vs flushed contents.",
+ "C03": "Proved (PrAlloc, PrAllocEffect, PrChain, PrCount, PrFat): alloc takes an in-range free cluster and has exactly the stated FAT effect, never panics; truncate/free-chain effects; capacity; FAT update frame; data clusters inside the data area. Not closed: the global well-formedness invariant over histories. Oracle: independent structural checker after every call that wrote.",
+ "C04": "Proved: FAT writes change only the addressed entry (FAT32 high bits kept) and only FAT sectors; info-sector writes only bytes 488..496; directory-slot writes only that slot (write_entry_to_disk, create, delete); read-modify-write preserves all other blocks; data clusters map inside the data area; no slack entry is allocated. Not closed: composition over histories. Oracle: region classification of every block write against the pre-write medium.",
+ "C05": "Proved (PrCount): C05_capacity (exactly free_entries allocations succeed, the next fails with nothing changed), C05_fill_free_refill for every number of cycles, count deltas of alloc/truncate/free-chain. Not closed: used-set == reachable-set as a history invariant. Oracle: used == reachable when quiescent; cycles accept exactly free x cluster bytes.",
  "C06": "PROVED in full for the model (C06_iterate, C06_find, C06_find_listed, C06_open_dir): listing = exactly the valid slots before the end marker in on-disk order over any chain; lookup = first match; open_dir succeeds exactly for listed directory entries and designates the entry's cluster. Oracle: independent reader's live-entry list of the same directory at that moment.",
- "C07": "PROVED in full for the model: decision tables of open_file_in_dir, delete, mkdir, open_dir, write on a read-only handle, with 'a refusal only reads' (C07_open_refusals, C07_open_existing_keep/_truncate, C07_open_create, C07_delete_refusals, C07_mkdir_refusals, C07_open_dir_typing, C07_write_read_only). Oracle: decision table over six modes x {missing,file,read-only,directory,open} x names, refusals must not write.",
+ "C07": "PROVED in full for the model: decision tables of open_file_in_dir, delete, mkdir, open_dir, write on a read-only handle, with 'a refusal only reads'. Oracle: decision table over six modes x {missing,file,read-only,directory,open} x names, refusals must not write.",
  "C08": "PROVED in full for the model: C08_fresh (+ C08_wrap_refuted_state: known finding), C08_stale_* for every call (C08_root_stale_refuted: known finding), C08_limits for every op with C08_limit_errors, C08_volume_rules, C08_close_*_frees, C08_query_truthful, C08_reentrant (LockError, whole state unchanged). Oracle: handle bookkeeping on the implementation's results.",
- "C09": "Proved: distinct clusters never share a block (bystander frame). Oracle: the flushed file is looked up by an independent reader on every later write prefix.",
- "C10": "Proved: only free entries are ever taken by allocation. Oracle: independent crash checker on every write prefix, free clusters pre-dirtied.",
- "C11": "Proved: bind propagates errors. Oracle: a call during which a device call failed returns an error; no duplicate names; script keeps running.",
- "C16": "Proved: the allocated cluster (and hence the stored hint) is below the end bound. Oracle: FAT copies byte-identical after each call; stored count delta == free-entry delta; hint in range; no panic on stale records.",
+ "C09": "Proved (PrCrash, PrEntry): C09_frame - at EVERY prefix of the writes of alloc/truncate/free-chain the byte array of every other chain is unchanged; flush-then-lookup returns the flushed entry. Not closed: composition over arbitrary later operations. Oracle: the flushed file is looked up by an independent reader on every later write prefix.",
+ "C10": "Proved (PrCrash, PrOrder, PrAllocEffect, PrChain): for EVERY prefix of the writes of alloc_cluster the chain reads as before or as extended by the (already zeroed) new cluster and every other chain is untouched; same for truncate/free-chain (only lost clusters); write order of alloc and make_dir (parent entry last). Not closed: make_dir contents at every prefix, composition over histories. Oracle: independent crash checker on every write prefix, free clusters pre-dirtied.",
+ "C11": "Proved (PrFault): C11_api_never_ok - no op returns Ok after a device failure during it; C11_api_reports - every op but Mkdir returns Err (never Panic); every catch site examined; a failed write invalidates the cache. Not closed: Mkdir never panics, retry/bystander clauses. Oracle: a call during which a device call failed returns an error; no duplicate names; script keeps running.",
+ "C16": "Proved (PrFat, PrCount): C16_mirror_step (mirroring is an invariant of every FAT update), truthful counts stay truthful under alloc/truncate/free-chain, unknown stays unknown, hint None or in range, ANY stale hint/count is harmless (never Panic, outcome decided by the FAT alone), update_info_sector stores exactly the count. Not closed: composition over histories. Oracle: FAT copies byte-identical after each call; stored count delta; hint in range; no panic on stale records.",
 }
 checks = []
 def add(pid, engine, cat, text, note, tech, design):
